@@ -236,8 +236,10 @@ pub fn check(b: &[u8], st: &mut Stats, random: Option<u32>) {
                         bad.push("== &str / == str of canonical text is false".into());
                     }
                     near_text_probes(&l, &t, &mut bad);
-                    if l == *format!("{t}\0").as_str() || l == *format!("{t} ").as_str() {
-                        bad.push("== str of padded text is true".into());
+                    for pad in ["\0", " ", "a", "n", "-", "\0\0\0"] {
+                        if l == *format!("{t}{pad}").as_str() || l == *format!("{pad}{t}").as_str() || (t.len() > 1 && l == t[..t.len() - 1]) {
+                            bad.push(format!("== str of {:?}-padded / truncated text is true", pad));
+                        }
                     }
                     let up = model::upper(b);
                     if up != t && l == up.as_str() {
@@ -256,6 +258,21 @@ pub fn check(b: &[u8], st: &mut Stats, random: Option<u32>) {
         }
     }
 
+    // FromStr is a separate public entry point of every subtag type: same verdict as the
+    // production, for every input (not only the accepted ones)
+    if let Ok(sx) = std::str::from_utf8(b) {
+        let r = guard(|| (Language::from_str(sx).is_ok(), Script::from_str(sx).is_ok(), Region::from_str(sx).is_ok(), Variant::from_str(sx).is_ok()));
+        match r {
+            Err(p) => st.fail(format!("fromstr:{}", panic_sig(&p)), case_of(b), b.len(), format!("panic {p:?}")),
+            Ok((l, s, r, v)) => {
+                for (name, got, exp) in [("language", l, model::is_language(b)), ("script", s, model::is_script(b)), ("region", r, model::is_region(b)), ("variant", v, model::is_variant(b))] {
+                    if got != exp {
+                        st.fail(format!("{name}-fromstr:{}", if exp { "rejects-wellformed" } else { "accepts-illformed" }), case_of(b), b.len(), format!("{name}::from_str -> ok={got}, reference says well-formed={exp}"));
+                    }
+                }
+            }
+        }
+    }
     let boundary = !accepted_any && ascii_alnum && (2..=8).contains(&b.len());
     if accepted_any || boundary {
         st.class(if accepted_any { "accepted-by-some-type" } else { "rejected-at-class-boundary" });
@@ -365,6 +382,19 @@ pub fn run(cfg: &Cfg) -> Stats {
     let s = par_range(ncases, |i, st| check(&cases[i as usize], st, Some(maxlen)));
     total = total.merge(s);
     total.subspace("single-byte substitutions of 25 base subtags", ncases, true);
+
+    // sanitisation slips and special words: valid subtags padded with (Unicode) whitespace or
+    // with one letter replaced by a character that case-folds to ASCII (U+212A, U+017F, U+0130,
+    // full-width, Cyrillic), and language-shaped words that begin with "und"
+    let words: Vec<&str> = vec!["en", "ast", "abcde", "kana", "Kana", "latn", "us", "sk", "419", "1abc", "valencia", "kiswa", "sinak", "isiks", "und"];
+    let mut extra: Vec<Vec<u8>> = crate::props::spaces::sanitisation_slips(&words);
+    for w in ["undef", "undine", "undefine", "UNDEF", "Undine", "unde", "und1", "undu", "undundun", "un", "nd", "dun", "und-", "und\0"] {
+        extra.push(w.as_bytes().to_vec());
+    }
+    let nextra = extra.len() as u64;
+    let s = par_range(nextra, |i, st| check(&extra[i as usize], st, Some(maxlen)));
+    total = total.merge(s);
+    total.subspace("sanitisation slips of 15 subtags (padding, case-folding look-alikes) and und-prefixed words", nextra, true);
 
     // random
     let n = cfg.pick(300_000, 5_000_000);
